@@ -3,6 +3,8 @@
 #![deny(rustdoc::broken_intra_doc_links)]
 #![deny(missing_debug_implementations)]
 #![deny(missing_docs)]
+// verif-hooks (off by default) re-exports crate-private items; their definitions carry no docs.
+#![cfg_attr(feature = "verif-hooks", allow(missing_docs, missing_debug_implementations))]
 
 mod error;
 mod instructions;
@@ -15,3 +17,16 @@ pub use error::Error;
 pub use instructions::{operations::Operation, Instruction};
 pub use types::{IrType, IrValue};
 pub use zkir::ZkirRelation;
+
+/// Verification hooks (feature `verif-hooks`, off by default): re-exports of crate-private items so
+/// that out-of-tree harnesses can call the real per-operation functions and both parsers. Add-only.
+#[cfg(feature = "verif-hooks")]
+#[allow(missing_docs, missing_debug_implementations)]
+pub mod verif_hooks {
+    pub use crate::{
+        instructions::operations::*,
+        parser::{incircuit, offcircuit},
+        types::CircuitValue,
+        utils::{constants, *},
+    };
+}
